@@ -669,6 +669,10 @@ class Agent(object):
                     # when stopping the agent, the orchestrator / directory might have
                     # already left.
                     pass
+                except ValueError:
+                    # The computation has been registered on another agent
+                    # meanwhile (repair): it is not ours to un-register.
+                    pass
 
         if self._ui_server:
             self._ui_server.stop()
